@@ -18,7 +18,7 @@ TRUSTED = ['translators tools/gen/{passgroups,clangdelta,pyconv}.py (ast / regex
 ASSUMPTIONS = ['what clang_delta does for a registered name is out of scope (C19 checks the counter protocol shape)']
 IMPORTS = ['From Coq Require Import List ZArith Bool.', 'Import ListNotations.', 'From CV Require Import Config.PassGroup Config.Shipped.', 'From CV Require Gen.PassGroups Gen.ClangDelta Gen.PyConv.',
            'From Coq Require Import String.', 'Open Scope string_scope.']
-ROW_OK = ('(row_ok Gen.PassGroups.pass_table Gen.PyConv.py_args Gen.ClangDelta.registrations Gen.PyConv.clex_exact Gen.PyConv.clex_prefixed)')
+ROW_OK = ('(row_ok Gen.PassGroups.pass_table Gen.PyConv.py_args Gen.ClangDelta.registrations Gen.PyConv.clex_exact Gen.PyConv.clex_prefixed Gen.PyConv.lines_literals)')
 
 
 def explore(ctx):
